@@ -117,6 +117,22 @@ func clonehistOne(hist []chOp, corpus string, rep *Report) {
 			m.Extend(func([]byte, uint32) bool { return true }, name, ".vxc")
 			registered[name] = true
 			extCopySeen = true
+		case "extchain":
+			n := findNode(chNodes[op.Cls][0], chNodes[op.Cls][1])
+			if n == nil {
+				fmt.Fprintln(os.Stderr, "node not found", op.Cls)
+				os.Exit(2)
+			}
+			for i := 1; i <= 12; i++ { // each one registered as a child of the previous one
+				name := fmt.Sprintf("verif/chain-%s-%d", op.Cls, i)
+				n.Extend(func([]byte, uint32) bool { return true }, name, ".vxc")
+				registered[name] = true
+				n = mimetype.Lookup(name)
+				if n == nil {
+					rep.violate(Violation{Property: "C14", Kind: "lookup-after-extend", Text: histString(hist), Detail: "Lookup(" + name + ") = nil right after Extend", Key: "C14|clonehist|" + name})
+					return
+				}
+			}
 		case "extnode":
 			n := findNode(chNodes[op.Cls][0], chNodes[op.Cls][1])
 			if n == nil {
